@@ -219,6 +219,7 @@ func c17Encoder(c *run.Ctx, idx uint64) {
 		c.Count("B_with_helper_readback", 1)
 	}
 	selMismatch := ""
+	callerTransforms := append(make([]generate.Aff3, 0, 4), generate.Scale(2, 3), generate.Translate(-5, 4), generate.Scale(0.5))
 	// runB encodes program B on e: after Reset(vbB, palB), or — reset false, only
 	// used with the default metadata — on a never-Reset zero-value Encoder. The
 	// gradient helper in B comes from g (a Generator that lives as long as the
@@ -241,6 +242,9 @@ func c17Encoder(c *run.Ctx, idx uint64) {
 					g.SetDestination(e)
 				}
 				g.SetLinearGradient(0, 0, 8, 8, generate.GradientSpreadPad, []generate.GradientStop{{Offset: 0, Color: color.Black}, {Offset: 1, Color: color.White}})
+				// the caller keeps its transforms in a slice and hands it over for every graphic
+				g.SetTransform(callerTransforms...)
+				g.SetPathData("M1 2l3 4h2V7z", 1)
 			}
 			rec.Apply(e, &b[i])
 		}
